@@ -456,4 +456,228 @@ theorem C04_check_restrictions (hm : meetsDemands ctx pc r sel sa = true)
         rw [this]
         assumption
 
+open AnonModel.Query (Query)
+
+
+theorem mapM_eq_some_map {α β : Type} {f : α → Option β} {g : α → β} :
+    ∀ {l : List α}, (∀ a ∈ l, f a = some (g a)) → l.mapM f = some (l.map g) := by
+  intro l
+  induction l with
+  | nil => intro _; rfl
+  | cons a l ih =>
+    intro h
+    rw [List.mapM_cons, h a List.mem_cons_self, ih (fun b hb => h b (List.mem_cons_of_mem _ hb))]
+    rfl
+
+/-- the verifier's schema of a used credential, with the same normalised names as the prover's -/
+theorem Meets.schema_of (m : Meets ctx pc r sel sa) {s : Selected} {i : Nat}
+    (hs : (usedOf sel)[i]? = some s) :
+    ∃ a sc, pc.schemas.lookup s.cred.schemaId = some a ∧ ctx.schemas.lookup s.cred.schemaId = some sc ∧
+      ∀ x, x ∈ sc.attrNames.map commonView ↔ x ∈ a.map commonView := by
+  have := m.schemas
+  unfold schemasAgree at this
+  simp only [List.all_eq_true] at this
+  have := this s (List.mem_of_getElem? hs)
+  split at this
+  · rename_i a sc h1 h2
+    refine ⟨a, sc, h1, h2, ?_⟩
+    unfold sameSet at this
+    simp only [Bool.and_eq_true, List.all_eq_true, List.contains_iff_mem] at this
+    exact fun x => ⟨this.1 x, this.2 x⟩
+  · cases this
+
+theorem Meets.credDef_of (m : Meets ctx pc r sel sa) {s : Selected} {i : Nat}
+    (hs : (usedOf sel)[i]? = some s) :
+    ∃ cd, ctx.credDefs.lookup s.cred.credDefId = some cd ∧ cd.key = s.cred.sym.key := by
+  have := m.credDefs
+  unfold credDefsAgree at this
+  simp only [List.all_eq_true] at this
+  have := this s (List.mem_of_getElem? hs)
+  split at this
+  · rename_i cd h1
+    exact ⟨cd, h1, by simpa using this⟩
+  · cases this
+
+/-- the `SubCtx` the verifier hands to the CL verifier for a used selection entry -/
+def subCtxOf (ctx : Ctx) (s : Selected) (sc : SchemaInfo) (cd : CredDefInfo) : SubCtx :=
+  { schemaAttrs := sc.attrNames.map commonView, key := cd.key, hasRevKey := cd.revocable,
+    regKey := (registryFor ctx s).map (·.1.regKey), acc := (registryFor ctx s).bind (·.2.acc) }
+
+theorem Meets.registry_of (m : Meets ctx pc r sel sa) {s : Selected} {i : Nat}
+    (hs : (usedOf sel)[i]? = some s) :
+    revocationRegistry ctx (identOf s) =
+      some ((registryFor ctx s).map (·.1.regKey), (registryFor ctx s).bind (·.2.acc)) := by
+  have := m.registries
+  unfold registriesSupplied at this
+  simp only [List.all_eq_true] at this
+  have := this s (List.mem_of_getElem? hs)
+  unfold revocationRegistry registryFor at *
+  simp only [identOf]
+  cases h1 : s.cred.revRegId with
+  | none => rfl
+  | some rid =>
+    cases h2 : s.timestamp with
+    | none => rfl
+    | some ts =>
+      simp only [h1, h2, Option.isSome_some, Bool.and_self, Bool.not_true, Bool.false_or] at this ⊢
+      cases h3 : ctx.revRegDefs with
+      | none => simp [h3] at this
+      | some defs =>
+        cases h4 : ctx.lists with
+        | none => simp [h3, h4] at this
+        | some ls =>
+          simp only [h3, h4] at this ⊢
+          cases h5 : defs.lookup rid with
+          | none => simp [h5] at this
+          | some d =>
+            cases h6 : findList ls rid ts with
+            | none => simp [h5, h6] at this
+            | some l => rfl
+
+/-- the attribute-side local intervals as the verifier collects them -/
+theorem attrLocals_of (ch : LegacyChar pc r sel sa holder session uid0 p) {s : Selected} {i : Nat}
+    (hs : (usedOf sel)[i]? = some s) : attrLocals r p i = some (verifierAttrLocals r s i) := by
+  unfold attrLocals verifierAttrLocals
+  simp only []
+  rw [ch.revealed_filter hs, ch.groups_filter hs]
+  apply mapM_eq_some_map
+  intro ref href
+  rcases List.mem_append.mp href with href | href
+  · obtain ⟨⟨k, info⟩, hk, e⟩ := List.mem_map.mp href
+    simp only at e; subst e
+    obtain ⟨rr, _, hk⟩ := List.mem_flatMap.mp hk
+    obtain ⟨_, ai, _, _, hl, _⟩ := mem_revOf hk
+    simp [hl]
+  · obtain ⟨⟨k, g⟩, hk, e⟩ := List.mem_map.mp href
+    simp only at e; subst e
+    obtain ⟨rr, _, hk⟩ := List.mem_flatMap.mp hk
+    obtain ⟨_, ai, _, _, hl, _⟩ := mem_grpOf hk
+    simp [hl]
+
+theorem predLocals_of (ch : LegacyChar pc r sel sa holder session uid0 p) {s : Selected} {i : Nat}
+    (hs : (usedOf sel)[i]? = some s) : predLocals r p i = some (verifierPredLocals r s) := by
+  unfold predLocals verifierPredLocals
+  simp only []
+  rw [ch.predicates_filter hs, List.map_map]
+  have : (Prod.fst ∘ fun ref => (ref, i)) = (id : String → String) := rfl
+  rw [this, List.map_id]
+  apply mapM_eq_some_map
+  intro ref href
+  obtain ⟨sub, _, hadd⟩ := ch.sub_of hs
+  obtain ⟨_, _, pinfos, _, _, _, hmp, _⟩ := addSubProof_some hadd
+  obtain ⟨q, _, hl⟩ := mapM_some_mem hmp href
+  simp [hl]
+
+/-- the sub-proof built for an entry only mentions attributes of the verifier's schema -/
+theorem addSubProofRequestOk_of (m : Meets ctx pc r sel sa) {s : Selected} {i : Nat}
+    (hs : (usedOf sel)[i]? = some s) {sub : SymSub} {uid : Nat}
+    (hadd : addSubProof pc r s holder session uid = some sub) {sc : SchemaInfo}
+    (hsc : ctx.schemas.lookup s.cred.schemaId = some sc) {cd : CredDefInfo} :
+    addSubProofRequestOk (subCtxOf ctx s sc cd) sub = true := by
+  obtain ⟨a, sc', ha, hsc', hsame⟩ := m.schema_of hs
+  rw [hsc] at hsc'; cases hsc'
+  obtain ⟨hnr, hnp⟩ := addSubProof_normal hadd
+  obtain ⟨a', ainfos, pinfos, ha', _, _, _, hb⟩ := addSubProof_some hadd
+  rw [ha] at ha'; cases ha'
+  obtain ⟨_, _, h3, h4, _, _, hrev, hpreds, _⟩ := buildSub_some hb
+  have hkeys := mapM_pair_keys hrev
+  unfold addSubProofRequestOk subCtxOf
+  simp only [Bool.and_eq_true, List.all_eq_true, List.contains_iff_mem]
+  constructor
+  · intro kv hkv
+    rw [hnr kv hkv, hsame]
+    have : kv.1 ∈ sub.revealed.map Prod.fst := List.mem_map_of_mem hkv
+    rw [hkeys] at this
+    obtain ⟨n1, hn1, e⟩ := List.mem_map.mp (mem_dedup.mp this)
+    rw [← e]; exact h3 n1 hn1
+  · intro pr hpr
+    rw [hnp pr hpr, hsame]
+    rw [hpreds] at hpr
+    obtain ⟨q, hq, e⟩ := List.mem_map.mp (mem_dedup.mp hpr)
+    rw [← e]; exact h4 q hq
+
+/-- the per-identifier loop body succeeds for the `i`-th used entry -/
+theorem subCtxFor_of (m : Meets ctx pc r sel sa) (ch : LegacyChar pc r sel sa holder session uid0 p)
+    {s : Selected} {i : Nat} (hs : (usedOf sel)[i]? = some s) :
+    ∃ sc cd, ctx.schemas.lookup s.cred.schemaId = some sc ∧
+      ctx.credDefs.lookup s.cred.credDefId = some cd ∧ cd.key = s.cred.sym.key ∧
+      subCtxFor ctx r p i (identOf s) = some (subCtxOf ctx s sc cd) := by
+  obtain ⟨a, sc, ha, hsc, hsame⟩ := m.schema_of hs
+  obtain ⟨cd, hcd, hkey⟩ := m.credDef_of hs
+  obtain ⟨sub, hsub, hadd⟩ := ch.sub_of hs
+  refine ⟨sc, cd, hsc, hcd, hkey, ?_⟩
+  have hint : Interval.checkLegacy cd.revocable (Interval.foldLocals (verifierAttrLocals r s i))
+      (Interval.foldLocals (verifierPredLocals r s)) r.nonRevoked s.cred.revRegId ctx.override
+      s.timestamp = true := by
+    have := m.intervals
+    unfold intervalsMet at this
+    simp only [List.all_eq_true] at this
+    have := this (s, i) (mem_zipIdx_iff.mpr hs)
+    simpa [hcd] using this
+  unfold subCtxFor
+  rw [attrLocals_of ch hs, predLocals_of ch hs]
+  simp only [identOf, hcd, hint, hsub, hsc, Bool.not_true, Bool.false_eq_true, if_false]
+  have hreg := m.registry_of hs
+  simp only [identOf] at hreg
+  rw [hreg]
+  simp only []
+  have := addSubProofRequestOk_of m hs hadd hsc (cd := cd)
+  unfold subCtxOf at this ⊢
+  rw [if_pos this]
+
+theorem mapM_exists_of {α β : Type} {f : α → Option β} : ∀ {l : List α},
+    (∀ a ∈ l, ∃ b, f a = some b) → ∃ r, l.mapM f = some r := by
+  intro l
+  induction l with
+  | nil => intro _; exact ⟨[], rfl⟩
+  | cons a l ih =>
+    intro h
+    obtain ⟨b, hb⟩ := h a List.mem_cons_self
+    obtain ⟨r, hr⟩ := ih (fun x hx => h x (List.mem_cons_of_mem _ hx))
+    exact ⟨b :: r, by rw [List.mapM_cons, hb, hr]; rfl⟩
+
+/-- check 9: interval checks and `add_sub_proof` succeed for every identifier; the contexts handed to
+the CL verifier are those of the used entries, in order -/
+theorem C04_check_subCtxs (hm : meetsDemands ctx pc r sel sa = true)
+    (h : createPresentation pc r sel sa holder session uid0 = some p) :
+    ∃ cs, subCtxs ctx r p = some cs ∧ cs.length = (usedOf sel).length ∧
+      ∀ (i : Nat) (c : SubCtx), cs[i]? = some c → ∃ s sc cd, (usedOf sel)[i]? = some s ∧
+        ctx.schemas.lookup s.cred.schemaId = some sc ∧
+        ctx.credDefs.lookup s.cred.credDefId = some cd ∧ cd.key = s.cred.sym.key ∧
+        c = subCtxOf ctx s sc cd := by
+  have ch := createPresentation_char h
+  have m := meets_of hm
+  have hbody : ∀ i ∈ List.range p.identifiers.length, ∀ s, (usedOf sel)[i]? = some s →
+      (match p.identifiers[i]? with
+        | none => none
+        | some id => subCtxFor ctx r p i id) = subCtxFor ctx r p i (identOf s) := by
+    intro i _ s hs
+    rw [ch.identifier_of hs]
+  have hex : ∀ i ∈ List.range p.identifiers.length, ∃ s, (usedOf sel)[i]? = some s := by
+    intro i hi
+    rw [List.mem_range, ch.identifiers_length] at hi
+    exact ⟨(usedOf sel)[i], List.getElem?_eq_getElem hi⟩
+  obtain ⟨cs, hcs⟩ := mapM_exists_of (l := List.range p.identifiers.length)
+    (f := fun i => match p.identifiers[i]? with
+        | none => none
+        | some id => subCtxFor ctx r p i id) (fun i hi => by
+      obtain ⟨s, hs⟩ := hex i hi
+      obtain ⟨sc, cd, _, _, _, hc⟩ := subCtxFor_of m ch hs
+      exact ⟨_, by rw [hbody i hi s hs, hc]⟩)
+  refine ⟨cs, hcs, ?_, ?_⟩
+  · rw [mapM_some_length hcs, List.length_range, ch.identifiers_length]
+  · intro i c hc
+    obtain ⟨j, hj, hf⟩ := mapM_some_getElem?_inv hcs hc
+    have hlt : i < p.identifiers.length := by
+      have := getElem?_lt hj
+      simpa using this
+    have hji : j = i := by
+      rw [List.getElem?_range hlt] at hj
+      exact (Option.some.inj hj).symm
+    subst hji
+    obtain ⟨s, hs⟩ := hex j (List.mem_range.mpr hlt)
+    obtain ⟨sc, cd, h1, h2, h3, h4⟩ := subCtxFor_of m ch hs
+    rw [hbody j (List.mem_range.mpr hlt) s hs, h4] at hf
+    exact ⟨s, sc, cd, hs, h1, h2, h3, (Option.some.inj hf).symm⟩
+
 end AnonModel.Prover
